@@ -34,9 +34,6 @@ Definition rec_table_std : bool := table_eqb rec_body_eqb rec_table rec_table_ex
 Lemma rec_table_is : rec_table_std = true -> rec_table = rec_table_expected.
 Proof. apply table_eqb_eq. exact rec_body_eqb_eq. Qed.
 
-Lemma run_vrfy A (p : P A) f i :
-  run (Vrfy p f) i = match run p i with Ok r a => if f a then Ok r a else Err i KVerify | r => r end.
-Proof. reflexivity. Qed.
 
 Lemma with_header_type hdr b : rec_table_std = true -> assoc_N (h_type hdr) rec_table_expected = Some b ->
   parse_tls_record_with_header hdr = rec_body b hdr.
